@@ -202,6 +202,57 @@ def graph_chunk(specs):
     return n, nt, mism, fails
 
 
+def commented_cycle_check():
+    """cycles that run through comment() / trailing_comment() wrappers (a commented dict value is rendered a second time for the
+    comment-above layout): at every width printing terminates and the markers sit exactly at the back-references.  Oracle only."""
+    def expected(v):
+        out = []
+
+        def go(x, path):
+            while isinstance(x, (P._CommentedValue, P._TrailingCommentedValue)):
+                x = x.value
+            if isinstance(x, (list, tuple, dict)):
+                if id(x) in path:
+                    out.append(str(id(x)))
+                    return
+                for y in (x.values() if isinstance(x, dict) else x):
+                    go(y, path | {id(x)})
+        go(v, frozenset())
+        return out
+    vals = []
+    d = {}
+    lst = [d, 1]
+    d['k'] = pp.comment(lst, 'a comment on the value')
+    vals.append(d)
+    d2 = {}
+    d2['self'] = pp.comment(d2, 'c')
+    vals.append(d2)
+    d3 = {}
+    inner = {'up': d3, 'n': [1, 2]}
+    d3['a'] = pp.comment(inner, 'first')
+    d3['b'] = pp.comment([inner, d3], 'second comment of several words that will not fit on the line of its key')
+    vals.append(d3)
+    l4 = []
+    l4.append({'k': pp.trailing_comment([l4, 0], 'tc'), 'j': pp.comment((l4,), 'c')})
+    vals.append(l4)
+    bad = []
+    for v in vals:
+        want = expected(v)
+        for w in (200, 60, 40, 20, 10):
+            text = safe_pformat(v, (4, w, w, None, 1000, 0), limit=5)
+            if text.startswith('EXC:'):
+                bad.append({'kind': 'cycle-handling', 'why': 'printing a cycle through a commented dict value: %s' % text, 'width': w, 'graph': 'commented-cycle %d' % vals.index(v)})
+                break
+            # a value rendered twice may show its markers twice in the broken layout only if both renderings are laid out, which never
+            # happens: exactly one rendering reaches the output
+            got = re.findall(r'<Recursion on \w+ with id=(\d+)>', text)
+            if got != want:
+                bad.append({'kind': 'cycle-handling', 'why': 'markers %s, expected %s (back-references only)' % (got, want), 'width': w,
+                            'graph': 'commented-cycle %d' % vals.index(v), 'text': text[:400]})
+                break
+    return bad[:3]
+
+
 def graphs_section(tier, seed):
     rng = random.Random(seed * 47 + 12)
     specs = list(all_graph_specs(2))
@@ -223,7 +274,8 @@ def graphs_section(tier, seed):
             nt += b
             mism.extend(mm)
             fails.extend(ff)
-    stats = {'evaluations': tot, 'distinct_nontrivial': nt, 'graphs': len(specs), 'mismatches': len(mism),
+    fails.extend(commented_cycle_check())
+    stats = {'evaluations': tot, 'distinct_nontrivial': nt, 'graphs': len(specs), 'mismatches': len(mism), 'commented_cycles_checked': True,
              'samples': [{'graph': specs[-3]}, {'graph': specs[100]}],
              'rule': 'rooted object graphs of list / dict / tuple nodes: all 2-node graphs with <= 2 children per node (sampled in quick), sampled 3-node graphs (thorough), '
                      'random graphs of 3-12 nodes, witnesses; each printed at two widths and under a finite depth limit (1, 2, 3 or 5), printed again, and followed by re-printing the previous value; '
